@@ -21,7 +21,7 @@ use roto::{FileTree, NoCtx, Package, Runtime, Val, library};
 use rotov_harness::driver::{Driver, hex};
 use rotov_harness::{Prng, Report};
 use serde_json::{Value, json};
-use std::collections::BTreeSet;
+use std::collections::{BTreeMap, BTreeSet};
 
 // ------------------------------------------------------------ script types
 
@@ -988,6 +988,13 @@ fn runtime(env: usize) -> Runtime<NoCtx> {
             fn host_twice(x: u32) -> u32 { x.wrapping_mul(2) }
             /// a host constant
             const HOST_LIMIT: u32 = 42;
+        },
+        // only used by the cross-package representatives: the names of environment 0, the Rust types exchanged
+        4 => library! {
+            /// in this runtime `Foo` is the other Rust type
+            #[clone] type Foo = Val<Bar>;
+            /// … and `Bar` the first
+            #[clone] type Bar = Val<Foo>;
         },
         _ => library! {
             /// a module
@@ -1973,6 +1980,9 @@ struct Proc {
     found: Vec<Vec<ProcReq>>,
     /// fresh-process trials left for this worker
     budget: u32,
+    /// wall time this worker spent in fresh-process trials (capped: the cross-package representatives give the
+    /// cheap cold-start inputs; this search is for what they do not cover)
+    spent: std::time::Duration,
     /// wrong answers seen per violation class
     per_class: std::collections::BTreeMap<String, u32>,
 }
@@ -2177,11 +2187,14 @@ fn minimise_process_history(fam: &[Entry], pc: &mut Proc, base: &Value, pkg_pref
         v
     };
     let trial = |pc: &mut Proc, v: &Value| -> bool {
-        if pc.budget == 0 {
+        if pc.budget == 0 || pc.spent.as_secs() >= if pc.thorough { 600 } else { 40 } {
             return false;
         }
         pc.budget -= 1;
-        answer_in_fresh_process(v).as_deref() == Some(wrong)
+        let t0 = std::time::Instant::now();
+        let same = answer_in_fresh_process(v).as_deref() == Some(wrong);
+        pc.spent += t0.elapsed();
+        same
     };
     // 1. cold start, the package history as minimised in this process
     let v0 = with(json!([]), None);
@@ -2320,6 +2333,230 @@ struct Judged {
     model: String,
 }
 
+/// A dumped union-find table (hook `Package::verif_c04_unionfind`) as driver tokens: the slots and the real
+/// `find_ref` of every slot. Types that are no variables are numbered by their text (`ids`, shared between the
+/// dumps of one package so that the numbers mean the same before and after the requests).
+fn uf_encode(tab: &[(roto::verif_hooks::c04::UfSlot, roto::verif_hooks::c04::UfSlot)], ids: &mut BTreeMap<String, usize>) -> (Vec<String>, Vec<String>) {
+    let mut enc = |s: &roto::verif_hooks::c04::UfSlot| match s.var {
+        Some((k, i)) => format!("V{}{i}", match k { "Var" => 'v', "IntVar" => 'i', "FloatVar" => 'f', "RecordVar" => 'r', _ => 'e' }),
+        None => {
+            let n = ids.len();
+            format!("T{}", *ids.entry(s.text.clone()).or_insert(n))
+        }
+    };
+    let slots = tab.iter().map(|(s, _)| enc(s)).collect();
+    let res = tab.iter().map(|(_, r)| enc(r)).collect();
+    (slots, res)
+}
+
+/// The package's union-find table before its first request against the modelled `find` / `find_ref`
+/// (`RotoV.GateUF`, variable kinds as generated): the model looks up every index in turn on one table and must
+/// give, lookup by lookup, what the real `find_ref` gives; the read-only lookup on the table those lookups left
+/// must give the same again.
+fn uf_before(drv: &mut Driver, rep: &mut Report, seed: u64, index: u64, src: &str, slots: &[String], res: &[String]) {
+    if slots.is_empty() {
+        rep.hist("uf-table", "empty");
+        return;
+    }
+    let ans = drv.ask(&format!("c04 uf {}", slots.join(" ")));
+    rep.evaluations += 1;
+    let parts: Vec<Vec<&str>> = ans.split(" | ").map(|p| p.split(' ').filter(|t| !t.is_empty()).collect()).collect();
+    let want: Vec<&str> = res.iter().map(|s| s.as_str()).collect();
+    let ok = parts.len() == 3 && parts[0] == want && parts[2] == want && parts[1].len() == slots.len();
+    if !ok {
+        let at = parts.first().and_then(|a| (0..want.len()).find(|&i| a.get(i) != Some(&want[i])));
+        rep.mismatch(
+            "the modelled UnionFind::find / find_ref and the real find_ref disagree on a package's type-variable table",
+            json!({"seed": seed, "index": index, "script": src, "slots": slots.len(), "first_difference_at": at,
+                   "slot": at.map(|i| slots[i].clone()), "real": at.map(|i| res[i].clone()),
+                   "model": at.and_then(|i| parts.first().and_then(|a| a.get(i).map(|s| s.to_string()))),
+                   "driver": if parts.len() == 3 { String::new() } else { ans.chars().take(200).collect() }}),
+        );
+    }
+    let bound = slots.iter().zip(res).filter(|(s, r)| s != r).count();
+    let compressed = if parts.len() == 3 { parts[1].iter().zip(slots).filter(|(a, b)| *a != b).count() } else { 0 };
+    rep.hist("uf-table", if ok { "as modelled" } else { "differs from the model" });
+    rep.hist("uf-slots", match slots.len() { 0..=99 => "<100", 100..=999 => "100..999", _ => ">=1000" });
+    rep.hist("uf-bound-slots", if bound == 0 { "none" } else { "some" });
+    rep.hist("uf-chains (the modelled find compresses)", if compressed == 0 { "none" } else { "some" });
+}
+
+/// The same table after all requests on the package: every slot still resolves to what it resolved to before
+/// (`RotoV.C04UF.find_keeps_every_resolution`, `resolve_history_independent`), and a slot that changed holds its
+/// resolution (the one write of `find`).
+fn uf_after(rep: &mut Report, seed: u64, index: u64, src: &str, before: &(Vec<String>, Vec<String>), before_text: &[(String, String)], after: &(Vec<String>, Vec<String>), after_text: &[(String, String)]) {
+    rep.evaluations += 1;
+    let n = before.0.len();
+    let mut bad: Option<(usize, &'static str)> = None;
+    if after.0.len() != n {
+        bad = Some((n.min(after.0.len()), "the table changed its length"));
+    } else {
+        for i in 0..n {
+            if after.1[i] != before.1[i] || after_text[i].1 != before_text[i].1 {
+                bad = Some((i, "a slot resolves to something else than before the requests"));
+                break;
+            }
+            let same = after.0[i] == before.0[i] && after_text[i].0 == before_text[i].0;
+            let is_res = after.0[i] == before.1[i] && after_text[i].0 == before_text[i].1;
+            if !same && !is_res {
+                bad = Some((i, "a slot was overwritten with something that is not its resolution"));
+                break;
+            }
+        }
+    }
+    let changed = (0..n.min(after.0.len())).filter(|&i| after.0[i] != before.0[i]).count();
+    rep.hist("uf-slots-rewritten-by-requests", if changed == 0 { "none" } else { "some" });
+    rep.class(format!("uf|{}", if changed == 0 { "untouched" } else { "compressed" }));
+    if let Some((i, what)) = bad {
+        rep.mismatch(
+            "the requests made on a package changed its type-variable table otherwise than by path compression (the model threads the package unchanged)",
+            json!({"seed": seed, "index": index, "script": src, "what": what, "slot": i,
+                   "before": before_text.get(i), "after": after_text.get(i)}),
+        );
+    }
+}
+
+/// **Cross-package class representatives** (run first, whatever the seed). Whatever the process remembers
+/// about a request — the `TypeRegistry` is process-global — a type-checker `Type` in a signature means something
+/// only relative to the package it belongs to: `Type::Var(n)` indexes that package's union-find table, a name is
+/// resolved in that package's scope graph against the runtime it was compiled with. So: two packages compiled
+/// from scripts of the *same shape* (the type-variable numbering coincides) whose filtermaps have different
+/// inferred payload types, and two runtimes that register different Rust types under the same name. In a fresh
+/// process the first package is asked for its function under its true type (granted), then the second package
+/// is asked for its function under the *first* package's type: must be refused; under its own: granted. Each
+/// representative runs in its own child process, so the replay (the same description) starts cold by construction.
+fn cross_package_reps(fam: &[Entry], rep: &mut Report, seed: u64) {
+    let pay: [(&str, &str); 8] = [
+        ("Some(70000)", "Option<i32>"), ("[70000]", "List<i32>"), ("Some(0.5)", "Option<f64>"), ("[0.5]", "List<f64>"),
+        ("[[0.5]]", "List<List<f64>>"), ("Some(Some(70000))", "Option<Option<i32>>"), ("Some([70000])", "Option<List<i32>>"), ("[Some(0.5)]", "List<Option<f64>>"),
+    ];
+    type Mk = fn(&str) -> String;
+    let shapes: [(&str, Mk, Mk); 3] = [
+        ("accept-side", |e| format!("filtermap f() {{ accept {e} }}"), |t| format!("fn() -> Verdict<{t}, ()>")),
+        ("reject-side", |e| format!("filtermap f() {{ reject {e} }}"), |t| format!("fn() -> Verdict<(), {t}>")),
+        ("reject-side-beside-a-parameter", |e| format!("filtermap f(p0: u8) {{ if true {{ accept p0 }} else {{ reject {e} }} }}"), |t| format!("fn(u8) -> Verdict<u8, {t}>")),
+    ];
+    // (class, env A, script A, type A, env B, script B, type asked of B, expected ok)
+    let mut reps: Vec<(String, usize, String, String, usize, String, String, bool)> = vec![];
+    for (si, (shape, mk_src, mk_ty)) in shapes.iter().enumerate() {
+        for i in 0..pay.len() {
+            let (a, b) = (pay[i], pay[(i + 1 + si) % pay.len()]);
+            reps.push((format!("same-shape-script-other-payload:{shape}"), 0, mk_src(a.0), mk_ty(a.1), 0, mk_src(b.0), mk_ty(a.1), false));
+            if si == 0 {
+                reps.push((format!("same-shape-script-own-payload:{shape}"), 0, mk_src(a.0), mk_ty(a.1), 0, mk_src(b.0), mk_ty(b.1), true));
+            }
+        }
+    }
+    for (src, ty_foo, ty_bar) in [
+        ("fn f(x: Foo) {}", "fn(Val<Foo>) -> ()", "fn(Val<Bar>) -> ()"),
+        ("fn f() -> Foo? { None }", "fn() -> Option<Val<Foo>>", "fn() -> Option<Val<Bar>>"),
+    ] {
+        reps.push(("same-name-other-runtime".into(), 0, src.into(), ty_foo.into(), 4, src.into(), ty_foo.into(), false));
+        reps.push(("same-name-other-runtime:own-type".into(), 0, src.into(), ty_foo.into(), 4, src.into(), ty_bar.into(), true));
+        reps.push(("same-name-other-runtime".into(), 4, src.into(), ty_bar.into(), 0, src.into(), ty_bar.into(), false));
+    }
+    for (k, (class, env_a, src_a, ty_a, env_b, src_b, ty_b, expected_ok)) in reps.into_iter().enumerate() {
+        if fam.iter().all(|e| e.show() != ty_a) || fam.iter().all(|e| e.show() != ty_b) {
+            rep.mismatch("a cross-package representative asks for a Rust type outside the family", json!({"type_a": ty_a, "type_b": ty_b}));
+            continue;
+        }
+        let expected = if expected_ok { "ok".to_string() } else { format!("refused (cross-package:{class}: the requested type is the true signature of the function of the same name in another package of this process)") };
+        let mut v = json!({
+            "seed": seed, "index": format!("cross-package representative {k}"), "env": env_b, "script": src_b, "function": src_b,
+            "name": "f", "rust_type": ty_b, "label": format!("cross-package:{class}"), "expected": expected,
+            "history": [], "history_kind": "none",
+            "process_history": [{"index": format!("cross-package representative {k}, first package"), "env": env_a, "script": src_a, "requests": [{"name": "f", "rust_type": ty_a}]}],
+            "process_history_kind": "one-earlier-request-in-the-process",
+        });
+        let real = answer_in_fresh_process(&v);
+        rep.evaluations += 1;
+        let outcome = match real.as_deref() { Some("ok") => "granted", Some("panic") => "panic", Some(_) => "refused", None => "no answer" };
+        rep.hist("cross-package", format!("{}: {outcome}", class.split(':').next().unwrap_or("")));
+        rep.class(format!("cross-package|{class}|{outcome}"));
+        v["real"] = json!(real);
+        match real.as_deref() {
+            None => rep.mismatch("a cross-package representative got no answer from its child process (a script that does not compile, a crash)", v),
+            Some(r) if (r == "ok") != expected_ok || r == "panic" => {
+                let kind = if r == "panic" { "panics" } else if expected_ok { "refuses-true-signature" } else { "accepts-wrong-signature" };
+                rep.violation(
+                    if expected_ok {
+                        "get_function refused a function under the documented image of its signature after a request on another package of the process"
+                    } else {
+                        "get_function returned a callable handle under a Rust type that is not the image of the script signature, after the same type was granted for another package of the process"
+                    },
+                    &format!("process-history-dependent(one-earlier-request-in-the-process):{kind}:cross-package:{class}"),
+                    v,
+                );
+            }
+            Some(_) => {}
+        }
+    }
+}
+
+/// **Bound-literal class representatives** (run first, whatever the seed): a literal below a type constructor
+/// in a filtermap's payload whose type variable *another statement binds* (`reject Some(7)` beside
+/// `reject Some(p0)`, `p0: u8`). The signature then carries, at depth, a literal variable that is bound — the
+/// function is compiled at the bound type, so the true Rust type has `u8` there and the default (`i32` / `f64`)
+/// must be refused: the gate has to *resolve* a component before it considers the default (the generated
+/// payloads only ever leave their literals unconstrained, where both orders agree).
+fn bound_literal_reps(fam: &[Entry], rt: &Runtime<NoCtx>, rep: &mut Report, seed: u64) {
+    let reps: [(&str, &str, &str, &[&str]); 8] = [
+        ("int-below-Option", "filtermap f(p0: u8) { if true { accept p0 } else { if true { reject Some(7) } else { reject Some(p0) } } }",
+         "fn(u8) -> Verdict<u8, Option<u8>>", &["fn(u8) -> Verdict<u8, Option<i32>>", "fn(u8) -> Verdict<u8, Option<i64>>"]),
+        ("float-below-Option", "filtermap f(p0: u8) { let y: f32 = 0.5; if true { accept p0 } else { if true { reject Some(0.25) } else { reject Some(y) } } }",
+         "fn(u8) -> Verdict<u8, Option<f32>>", &["fn(u8) -> Verdict<u8, Option<f64>>"]),
+        ("int-below-List", "filtermap f(p0: u8) { let y: u32 = 5; if true { accept p0 } else { if true { reject [7, 8] } else { reject [y] } } }",
+         "fn(u8) -> Verdict<u8, List<u32>>", &["fn(u8) -> Verdict<u8, List<i32>>", "fn(u8) -> Verdict<u8, List<u64>>"]),
+        ("float-below-List-List", "filtermap f(p0: u8) { let y: f32 = 0.5; if true { accept p0 } else { if true { reject [[0.25]] } else { reject [[y]] } } }",
+         "fn(u8) -> Verdict<u8, List<List<f32>>>", &["fn(u8) -> Verdict<u8, List<List<f64>>>"]),
+        ("int-below-Option-Option", "filtermap f(p0: u8) { let y: i64 = 5; if true { accept p0 } else { if true { reject Some(Some(1)) } else { reject Some(Some(y)) } } }",
+         "fn(u8) -> Verdict<u8, Option<Option<i64>>>", &["fn(u8) -> Verdict<u8, Option<Option<i32>>>", "fn(u8) -> Verdict<u8, Option<Option<u32>>>"]),
+        ("int-below-Option-both-sides", "filtermap f(p0: bool) { let y: i64 = 5; if p0 { accept Some(1) } else { if true { accept Some(y) } else { reject Some(y) } } }",
+         "fn(bool) -> Verdict<Option<i64>, Option<i64>>", &["fn(bool) -> Verdict<Option<i32>, Option<i32>>"]),
+        ("int-below-Result", "filtermap f(p0: u8) { let y: i64 = 5; if true { accept p0 } else { if true { reject Ok(1) } else { if true { reject Ok(y) } else { reject Err(0.5) } } } }",
+         "fn(u8) -> Verdict<u8, Result<i64, f64>>", &["fn(u8) -> Verdict<u8, Result<i32, f64>>", "fn(u8) -> Verdict<u8, Result<f64, i32>>"]),
+        ("int-accept-side", "filtermap f() { let y: i64 = 5; if true { accept Some(1) } else { accept Some(y) } }",
+         "fn() -> Verdict<Option<i64>, ()>", &["fn() -> Verdict<Option<i32>, ()>", "fn() -> Verdict<Option<u32>, ()>"]),
+    ];
+    for (k, (class, src, true_ty, wrong)) in reps.iter().enumerate() {
+        let mut pkg = match compile(src, rt) {
+            Ok(Ok(p)) => p,
+            _ => {
+                rep.mismatch("a bound-literal representative does not compile (the generator's model of the language is wrong)", json!({"script": src}));
+                continue;
+            }
+        };
+        // the true type first and last: a refusal or a grant in between must not change it
+        let asks: Vec<(&str, bool)> = std::iter::once((*true_ty, true)).chain(wrong.iter().map(|w| (*w, false))).chain(std::iter::once((*true_ty, true))).collect();
+        let mut history: Vec<Value> = vec![];
+        for (ty, expected_ok) in asks {
+            let Some(e) = fam.iter().find(|e| e.show() == ty) else {
+                rep.mismatch("a bound-literal representative asks for a Rust type outside the family", json!({"type": ty}));
+                continue;
+            };
+            let real = canon(&(e.probe)(&mut pkg, "f"));
+            rep.evaluations += 1;
+            let outcome = if real == "ok" { "granted" } else if real == "panic" { "panic" } else { "refused" };
+            rep.hist("bound-literal", format!("{}: {outcome}", if expected_ok { "true signature" } else { "the literal's default instead of the bound type" }));
+            rep.class(format!("bound-literal|{class}|{expected_ok}|{outcome}"));
+            if (real == "ok") != expected_ok || real == "panic" {
+                let kind = if real == "panic" { "panics" } else if expected_ok { "refuses-true-signature" } else { "accepts-wrong-signature" };
+                rep.violation(
+                    if expected_ok { "get_function refused a function under the documented image of its signature" } else { "get_function returned a callable handle under a Rust type that is not the image of the script signature" },
+                    &format!("{kind}:filtermap:ret:bound-literal-below-constructor:{class}"),
+                    json!({
+                        "seed": seed, "index": format!("bound-literal representative {k}"), "env": 0, "script": src, "function": src, "name": "f", "rust_type": ty,
+                        "label": format!("bound-literal:{class}"),
+                        "expected": if expected_ok { "ok".to_string() } else { format!("refused (ret: the literal below the constructor is bound to another type by the second statement; the function is compiled at {true_ty})") },
+                        "real": real, "history": history.clone(), "history_kind": if history.is_empty() { "none" } else { "whole prefix" },
+                    }),
+                );
+            }
+            history.push(json!({"name": "f", "rust_type": ty}));
+        }
+    }
+}
+
 fn run_script(fam: &[Entry], rts: &[Runtime<NoCtx>], drv: &mut Driver, rep: &mut Report, pc: &mut Proc, index: u64) {
     let (seed, thorough) = (pc.seed, pc.thorough);
     let (script, mut pairs) = gen_script(fam, seed, index, thorough);
@@ -2348,6 +2585,13 @@ fn run_script(fam: &[Entry], rts: &[Runtime<NoCtx>], drv: &mut Driver, rep: &mut
         }
     };
     rep.hist("script", "compiled");
+    // the one piece of package state a retrieval writes to: the type checker's union-find table (hook),
+    // dumped before the first request and fed to the modelled `find`
+    let mut uf_ids: BTreeMap<String, usize> = BTreeMap::new();
+    let uf0 = pkg.verif_c04_unionfind();
+    let uf0_enc = uf_encode(&uf0, &mut uf_ids);
+    let uf0_text: Vec<(String, String)> = uf0.iter().map(|(a, b)| (a.text.clone(), b.text.clone())).collect();
+    uf_before(drv, rep, seed, index, &script.src, &uf0_enc.0, &uf0_enc.1);
     // the module's real name table
     let keys = existing_keys(&mut pkg);
     let declared: BTreeSet<String> = script.decls.iter().map(|d| d.key()).collect();
@@ -2649,6 +2893,13 @@ fn run_script(fam: &[Entry], rts: &[Runtime<NoCtx>], drv: &mut Driver, rep: &mut
             }
         }
     }
+    // … and after the three rounds of requests
+    {
+        let uf1 = pkg.verif_c04_unionfind();
+        let uf1_enc = uf_encode(&uf1, &mut uf_ids);
+        let uf1_text: Vec<(String, String)> = uf1.iter().map(|(a, b)| (a.text.clone(), b.text.clone())).collect();
+        uf_after(rep, seed, index, &script.src, &uf0_enc, &uf0_text, &uf1_enc, &uf1_text);
+    }
     // the calls: every literal-payload script of the boundary stream, every fourth other script
     if !to_call.is_empty() && (thorough || script.kind == "literal-payload" || index % 4 == 0) {
         let reqs: Vec<(String, usize)> = to_call.iter().map(|(k, _)| (pairs[*k].name.clone(), pairs[*k].entry)).collect();
@@ -2761,7 +3012,11 @@ fn main() {
                     );
                 }
             }
-            let mut pc = Proc { seed, thorough, log: vec![], class_dep: Default::default(), found: vec![], budget: 160, per_class: Default::default() };
+            if from == 0 {
+                cross_package_reps(&fam, &mut rep, seed);
+                bound_literal_reps(&fam, &rts[0], &mut rep, seed);
+            }
+            let mut pc = Proc { seed, thorough, log: vec![], class_dep: Default::default(), found: vec![], budget: 160, spent: Default::default(), per_class: Default::default() };
             for i in from..from + n {
                 println!("START {i}");
                 run_script(&fam, &rts, &mut drv, &mut rep, &mut pc, i);
